@@ -1173,10 +1173,15 @@ def c18(tier):
                        "settings": {"include_styles": bool(a), "include_defs": bool(b), "include_backdrop": bool(c)}},
                       {"kind": "toggle", "of": j, "styles": a, "defs": b, "backdrop": c}))
             j += 1
-        st = {"fill_color": r.choice(cols), "background": r.choice(cols), "stroke_color": r.choice(cols),
+        c3 = r.sample(cols, 3)            # three different colours, so that a swap shows
+        st = {"fill_color": c3[0], "background": c3[1], "stroke_color": c3[2],
               "font_family": r.choice(["Arial", "monospace", "Fira Code, monospace"]), "font_size": r.randint(1, 40),
               "stroke_width": r.choice([0.5, 1.0, 2.0, 3.25])}
-        g.append(({"input": t, "entry": "settings", "settings": st, "want_style": True}, {"kind": "cosmetic", "of": j}))
+        sw = st["stroke_width"]
+        vals = {"stroke": c3[2], "fill": c3[0], "back": c3[1], "font": st["font_family"], "size": str(st["font_size"]),
+                "width": str(int(sw)) if sw == int(sw) else repr(sw)}
+        g.append(({"input": t, "entry": "settings", "settings": st, "want_style": True},
+                  {"kind": "cosmetic", "of": j, "vals": {k: [ord(ch) for ch in v] for k, v in vals.items()}}))
         j += 1
         W, H = float(r.randint(1, 2000)), float(r.randint(1, 2000))
         g.append(({"input": t, "entry": "override", "settings": {}, "w": W, "h": H, "want_style": True},
@@ -1549,6 +1554,24 @@ def c20(tier):
         events += client(0, nreq)            # sequential phase
         with ThreadPoolExecutor(max_workers=nclients) as ex:
             for evs in ex.map(lambda c: client(c, nreq), range(1, nclients + 1)):
+                events += evs
+        # contention phase: all clients post from a small set of slow (large) and fast diagrams at once, so that
+        # conversions of different bodies overlap and the same body is in flight on several connections
+        slow = [gen.random_grid(common.rng("C20/slow/%d" % i), 140, 60, "-|+.' ab", 0.75)[:19000] for i in range(3)]
+        fast = ["+--+\n|ab|\n+--+", "o-->", "a"]
+        convert_many([(t, {}) for t in slow + fast])
+        pool = [(t, shells.sha(convert(t, {}).encode("utf-8"))) for t in slow + fast]
+
+        def contender(cid):
+            rr = common.rng("C20/contend/%d" % cid)
+            out = []
+            for k in range(10 if tier == "quick" else 60):
+                t, want = rr.choice(pool)
+                st, body = shells.http_request(srv.port, "POST", "/", t.encode("utf-8"), timeout=120)
+                out.append({"client": cid, "seq": 1000 + k, "class": "post_ok", "status": st, "body_sha": shells.sha(body), "want_sha": want})
+            return out
+        with ThreadPoolExecutor(max_workers=nclients) as ex:
+            for evs in ex.map(contender, range(1, nclients + 1)):
                 events += evs
         alive = srv.alive()
     finally:
